@@ -34,6 +34,10 @@ fn dispatch(sx: &Sx) -> String {
         "possible" => modes::value::possible(args),
         "enum" => modes::value::enumeration(args),
         "store" => modes::value::store(args),
+        "probe" => modes::wrap::probe(args),
+        "wrap" => modes::wrap::wrap(args),
+        "styled" => modes::wrap::styled(args),
+        "about" => modes::wrap::about(args),
         m => format!("unknown-mode {m}"),
     }
 }
